@@ -242,7 +242,7 @@ func (e *Engine) NewGen(fn *ssa.Function, ct *Contract) *Gen {
 	sorts := []string{"Int"}
 	for _, p := range ct.Preludes {
 		switch p {
-		case "field", "group", "curve":
+		case "field", "group", "curve", "fieldring":
 			v.Field = true
 		case "bytes":
 			v.Bytes = true
